@@ -297,7 +297,18 @@ def run_shard(cfg):
                 continue
             rec.rank = idx
             run_history(rec, u, b, hist)
-    rec.bound = {"max_history_length": cfg["h"], "operation_instances": len(menu)}
+    # deeper, on a reduced alphabet: every history of <= 4 registry / (de)serialization operations over the two
+    # content-identical twin trees (ids with and without collision suffix)
+    red = [(name, (i,)) for name in ("detach", "detach_self", "dict-roundtrip-0", "dict-roundtrip-after-detach", "json-roundtrip-0", "duplicate", "replace-ok")
+           for i in (0, 2)]
+    for ln in range(3, 5):
+        for hist in itertools.product(red, repeat=ln):
+            idx += 1
+            if idx % cfg["of"] != cfg["k"]:
+                continue
+            rec.rank = 10**8 + idx
+            run_history(rec, u, b, hist)
+    rec.bound = {"max_history_length": cfg["h"], "operation_instances": len(menu), "reduced_alphabet_history_length": 4}
     return rec.result()
 
 
